@@ -94,6 +94,10 @@ def gen_c01(tier, seed):
     for lst in lists:
         for kw in ({}, {'micro': False}, {'eci': True, 'micro': False}, {'boost_error': False, 'micro': False, 'error': 'H'}):
             add(call('make', lst, **kw))
+    # falsy-looking contents are contents: 0, '0', a NUL byte, a blank
+    for c in (0, '0', b'0', b'\x00', ' ', [0, 'A'], ['0', 0], [0], 10 ** 40, '00', b'\x00\x00'):
+        for kw in ({}, {'micro': False}, {'error': 'M'}, {'version': 1, 'mask': 0}, {'version': 'M2', 'mask': 0} if not isinstance(c, list) and c not in (b'\x00', b'\x00\x00', ' ', 10 ** 40) else {'mask': 0}):
+            add(call('make', c, **kw))
     if thorough:
         for _ in range(300):
             k = r.randint(2, 5)
